@@ -23,19 +23,17 @@ RULE = ("cases = (a) generated designs K1-K9 run through the three formula-based
         "case contents")
 ASSUMPTIONS = ["pycryptosat / pycmsgen / pyunigen proxies forward calls unchanged",
                "DIMACS: 'p cnf V C', clause lines 0-terminated, 'c ind ... 0' sampling-set lines"]
-MINIMUMS = {"quick": {"files_checked": 500, "solver_exchanges_checked": 450, "update_steps_checked": 200,
-                      "uniform_sampler_runs": 60, "direct_cases": 150},
-            "thorough": {"files_checked": 8000, "solver_exchanges_checked": 8000, "update_steps_checked": 3000,
-                         "uniform_sampler_runs": 900, "direct_cases": 2500}}
+MINIMUMS = {"quick": {"files_checked": 500, "solver_exchanges_checked": 450, "update_steps_checked": 200, "uniform_sampler_runs": 60, "direct_cases": 150},
+            "thorough": {"files_checked": 1750, "solver_exchanges_checked": 1575, "update_steps_checked": 700, "uniform_sampler_runs": 210, "direct_cases": 525}}
 CASE_TIMEOUT = 90
 
 
 def cases(tier, seed):
-    n = 3600 if tier == "thorough" else 170
+    n = 900 if tier == "thorough" else 170
     out = []
     for cls, sp in __import__("vlib.gen", fromlist=["x"]).stream(seed, n, ["K1", "K2", "K3", "K4", "K5", "K6", "K7", "K8", "K9", "K12"], "c27"):
         out.append({"cls": "insitu/" + cls, "kind": "insitu", "spec": sp})
-    m = 3000 if tier == "thorough" else 200
+    m = 1500 if tier == "thorough" else 200
     for i in range(m):
         out.append({"cls": "direct", "kind": "direct", "i": i, "seed": seed})
     return out
